@@ -68,7 +68,7 @@ func parseOutcome(p *jmespath.Parser, e string) string {
 
 func c13(r *mon.Run) {
 	r.Rule = "search histories: for each seeded expression (all fragments, weighted towards functions fed with literals and raw strings; plus the literal-fed function matrix) one compiled expression answers a history of 8-40 calls mixing documents on which it succeeds, documents on which it fails, and repetitions of earlier documents (every document a fresh deep copy); every response must equal (up to allowed member order) the response of a freshly compiled expression and of the one-shot Search for the same document, and the compiled AST (hook) must be unchanged after every call. " +
-		"parser histories: one Parser parses sequences of 5-50 valid, ungrammatical and unlexable expressions interleaved; each result (AST, or error type, text, offset and expression) must equal that of a fresh Parser. Non-trivial = distinct histories containing a failing call followed by a succeeding one and a repeated document; parser histories containing a failure followed by a success."
+		"parser histories: one Parser parses sequences of 5-50 valid, ungrammatical and unlexable expressions interleaved; each result (AST, or error type, text, offset and expression) must equal that of a fresh Parser; plus histories of 1500 parses dominated by one failing expression. Non-trivial = distinct histories containing a failing call followed by a succeeding one and a repeated document; parser histories containing a failure followed by a success."
 	r.Floor = 200
 	r.Assumptions = []string{"documents handed to the three call paths are separate deep copies, so document mutation (C06) cannot masquerade as history dependence"}
 	base := c06BaseDoc()
@@ -226,5 +226,35 @@ func c13(r *mon.Run) {
 				t.Sample(map[string]interface{}{"parser_history_first_items": seq[:4]})
 			}
 		}}
-	r.Exec(hist, ph)
+	// long histories dominated by failures (a counter or buffer that leaks a little per failed parse)
+	failPool := []string{")", "]", "}", "a ==", "[foo", "((((", "(((((((((((((((((((((((((((((((", "a.", "a[", "{a:", "'x\\'", "\"x", "`x", "#", "f(", "a b", "!", "&a", "a ||", "[?", "*.[", "@(", ",", "a[0", "[:", "a."}
+	okPool := []string{"foo", "foo.bar", "a[0].b", "(((((((((((((((((((((((((((((((((((((((a)))))))))))))))))))))))))))))))))))))))", "a[*].b[?c > `1`].d", "{x: a, y: [b, c]}", "sort_by(a, &b)[0]", "'raw'", "a || b && !c"}
+	nl := tierPick(r, 24, 400)
+	lph := mon.Workload{Name: "long-parser-histories", N: nl, Batch: 2,
+		Do: func(i int, t *mon.Tally) {
+			rng := gen.DeriveN(r.Seed, "c13long", i)
+			p := jmespath.NewParser()
+			focus := failPool[i%len(failPool)]
+			for k := 0; k < 1500; k++ {
+				var e string
+				switch {
+				case k%10 == 9:
+					e = gen.Pick(rng, okPool)
+				case rng.Chance(3, 4):
+					e = focus
+				default:
+					e = gen.Pick(rng, failPool)
+				}
+				t.Eval()
+				got := parseOutcome(p, e)
+				want := parseOutcome(jmespath.NewParser(), e)
+				if got != want {
+					r.Violate(&mon.Violation{Workload: "long-parser-histories", Index: i, API: "(*Parser).Parse", Expr: e, Expected: "a reused Parser behaves like a fresh one: " + want, Observed: got,
+						Detail: fmt.Sprintf("parse number %d on one Parser; the history is dominated by the failing expression %q", k+1, focus), Class: "reused parser differs after many failures"})
+					return
+				}
+			}
+			t.Nontrivial(fmt.Sprint("long:", i))
+		}}
+	r.Exec(hist, ph, lph)
 }
